@@ -184,12 +184,22 @@ def classesOK : Bool :=
     | _ => c.setters.isEmpty && !c.methods.contains "__setitem__" && !c.methods.contains "__setattr__"
            && !c.methods.contains "__delattr__"
 
-/-- `copy`, `__copy__`, `__deepcopy__` of every mutable class return a new object (never `self`). -/
+/-- the object denoted by origin `o` was certainly created by the running call (never `self`, never a parameter) -/
+def newObj : Nat → String → Origin → Bool
+  | _, _, .selfRecv => false
+  | _, _, .param _ => false
+  | 0, _, .call _ => false
+  | fuel+1, _, .call f =>
+      let rs := G.returns.filter (·.fn == f)
+      !rs.isEmpty && rs.all fun r => newObj fuel r.cls r.origin
+  | fuel, ctx, o => G.fresh fuel ctx o
+
+/-- `copy` and `__copy__` of every mutable class return a new object (never `self`). -/
 def copiesOK : Bool :=
   (G.classes.filter (·.role == .mutable)).all fun d =>
     ["copy", "__copy__"].all fun m =>
       let rs := G.returnsOf d m
-      !rs.isEmpty && rs.all fun r => G.fresh fuel d.name r.origin
+      !rs.isEmpty && rs.all fun r => G.newObj fuel d.name r.origin
 
 def frozenOK : Bool :=
   G.hierarchyOK && G.classesOK && !G.stores.isEmpty && G.stores.all G.storeOK
